@@ -128,6 +128,23 @@ example : parsePublicKey (rsaBlob 65536 32769) = .err ∧ parsePublicKey (rsaBlo
 example : parsePublicKey (dsaBlob (2 ^ 1022) 7 2 5) = .err ∧ parsePublicKey (dsaBlob (2 ^ 1024) 7 2 5) = .err ∧
     parsePublicKey (dsaBlob (2 ^ 1023) 7 2 5) = .ok sshDss (.dsa (2 ^ 1023) 7 2 5) := by
   decide +kernel
+/-- ECDSA (RFC 5656), by evaluation over the REGENERATED curve table: the blob written for the base point of each of the
+    three curves is read as that point on that curve; the same blob with y + 1 is refused (not on the curve); a P-384 point
+    announced under the name ecdsa-sha2-nistp256 is typed by its inner curve identifier -/
+example : ([("nistp256", "P-256", 32), ("nistp384", "P-384", 48), ("nistp521", "P-521", 66)].all fun (cid, nm, bl) =>
+    match Gen.primeCurves.find? (fun c => c.name = nm) with
+    | some c =>
+      parsePublicKey (ecdsaBlob (strBytes cid) bl (beNat c.baseX) (beNat c.baseY)) ==
+          .ok (strBytes ("ecdsa-sha2-" ++ cid)) (.ecdsa nm (beNat c.baseX) (beNat c.baseY)) &&
+        parsePublicKey (ecdsaBlob (strBytes cid) bl (beNat c.baseX) (beNat c.baseY + 1)) == .err &&
+        sshBlobAttrs (ecdsaBlob (strBytes cid) bl (beNat c.baseX) (beNat c.baseY)) ==
+          some [⟨sb "Type", strBytes ("ecdsa-sha2-" ++ cid)⟩, ⟨sb "Algorithm", algName "ECDSA"⟩, curveAttr (sb (Curves.curveDisplay nm))]
+    | none => false) = true := by decide +kernel
+example : (match Gen.primeCurves.find? (fun c => c.name = "P-384") with
+    | some c => parsePublicKey (str (strBytes "ecdsa-sha2-nistp256") ++ str (strBytes "nistp384") ++
+          str (4 :: (fixedBE 48 (beNat c.baseX) ++ fixedBE 48 (beNat c.baseY)))) ==
+        .ok (strBytes "ecdsa-sha2-nistp384") (.ecdsa "P-384" (beNat c.baseX) (beNat c.baseY))
+    | none => false) = true := by decide +kernel
 /-- a modulus written without the zero octet is a NEGATIVE number to the reader; its size is that of the magnitude -/
 example : parsePublicKey (str (strBytes "ssh-rsa") ++ str [1, 0, 1] ++ str [128, 1]) = .ok sshRsa (.rsa 65537 (-32767)) := by decide
 end sshwitnesses
